@@ -21,8 +21,10 @@ COMPILER_REPLAYS = {
     "u_tmono": ["replay/c07/run.sh", "replay/c04/recursive_generic/run.sh"],
     "u_mcall": ["replay/c07/call_instances.sh"],
     "u_link": ["replay/c13/link_error/run.sh"],
+    "u_art": ["replay/c15/foreign_core.sh"],
     "u_scope": ["replay/c05/run.sh", "replay/c05/shadow_toplevel.sh"],
     "u_closenv": ["replay/c08/run.sh"],
+    "u_liftty": ["replay/c08/nested_tuple.sh"],
     "u_strlit": ["replay/c11/run.sh"],
     "u_dynvis": ["replay/c17/run.sh"],
     "u_dceblk": ["replay/c09/run.sh"],
